@@ -1,6 +1,7 @@
 package main
 
 import (
+	"sync/atomic"
 	"archive/tar"
 	"bytes"
 	"crypto/sha1"
@@ -44,6 +45,9 @@ type c2Inst struct {
 	GoType    string            `json:"-"`
 	Keywords  []string          `json:"-"`
 }
+
+// c2SplitSVDone counts the accepted split-supervoxel writes of the histories (evidence).
+var c2SplitSVDone int64
 
 type c2World struct {
 	n        *node.Node
@@ -241,6 +245,33 @@ func c2BoxRLEs(x0, nx, y0, y1, z0, z1 int) []byte {
 	return lmm.EncodeRLEs(rl)
 }
 
+// c2SwapBlocks exchanges the block coordinates 0 <-> 1 along X in a block stream (GET / POST blocks of
+// labelmap and labelarray: per block int32 x, y, z, int32 n, n bytes).  nil if the stream does not parse
+// or holds no block at X = 0 or 1.
+func c2SwapBlocks(b []byte) []byte {
+	out := append([]byte(nil), b...)
+	swapped := 0
+	for i := 0; i < len(out); {
+		if i+16 > len(out) {
+			return nil
+		}
+		x := int32(binary.LittleEndian.Uint32(out[i:]))
+		n := int(int32(binary.LittleEndian.Uint32(out[i+12:])))
+		if n < 0 || i+16+n > len(out) {
+			return nil
+		}
+		if x == 0 || x == 1 {
+			binary.LittleEndian.PutUint32(out[i:], uint32(1-x))
+			swapped++
+		}
+		i += 16 + n
+	}
+	if swapped == 0 {
+		return nil
+	}
+	return out
+}
+
 func c2KeyValues(kvs map[string]string) []byte {
 	var m proto.KeyValues
 	var ks []string
@@ -384,7 +415,16 @@ func (w *c2World) writeInst(in *c2Inst, u string, g int, kind string) {
 			post("raw/0_1_2/"+c2Vol+"/"+c2Off+"?mutate=true", c2Labels(g))
 			must(w.n.Idle(), "idle")
 		} else {
-			// proofreading: merge 2 into 1 or cleave supervoxel 3 off body 1
+			// proofreading: split a slab off supervoxel 2 (every third generation), merge 2 into 1 or cleave
+			// supervoxel 3 off body 1
+			if g%3 == 2 {
+				z0 := 16 + 4*(g/3%4)
+				if r := w.http("POST", base+"/split-supervoxel/2", c2BoxRLEs(32, 8, 0, 4, z0, z0+4)); r.Status == 200 {
+					atomic.AddInt64(&c2SplitSVDone, 1)
+					must(w.n.Idle(), "idle")
+					break
+				}
+			}
 			r := w.http("POST", base+"/cleave/1", []byte(`[3]`))
 			if r.Status != 200 {
 				w.okPost("POST", base+"/merge", []byte(`[1,2]`))
@@ -781,7 +821,11 @@ func (w *c2World) payloads(in *c2Inst, kw, method string, k int, other string) [
 				add("/1000", "u=sweep", []byte(fmt.Sprintf(`{"bodyid":1000,"a":%d,"swept":true}`, 100+k)))
 				add("/1777", "", []byte(`{"bodyid":1777,"swept":true}`))
 			case "keyvalues":
+				// (a user query string is mandatory for the batch ingest)
+				add("", "u=sweep", c2KeyValues(map[string]string{"1000": fmt.Sprintf(`{"bodyid":1000,"swept":%d}`, 2+k), "1778": `{"bodyid":1778,"swept":true}`}))
 				add("", "", c2KeyValues(map[string]string{"1000": `{"bodyid":1000,"swept":2}`}))
+			case "json_schema", "schema", "schema_batch":
+				add("", "", []byte(fmt.Sprintf(`{"type":"object","title":"swept-%d"}`, k)))
 			case "query":
 				add("", "", []byte(`{"a":0}`))
 			case "tags":
@@ -806,6 +850,9 @@ func (w *c2World) payloads(in *c2Inst, kw, method string, k int, other string) [
 				add("/40_5_5/41_5_5", "", nil)
 			case "blocks":
 				add("", "", []byte(`{"0,0,0":[{"Pos":[9,9,9],"Kind":"Note","Tags":["sweep"],"Prop":{}}]}`))
+			case "labels":
+				// ingest of per-label element lists: label -> JSON array (as a string)
+				add("", "", []byte(fmt.Sprintf(`{"1":"[{\"Pos\":[9,9,%d],\"Kind\":\"Note\",\"Tags\":[],\"Prop\":{}}]","2":"[]"}`, 9+k%7)))
 			case "reload", "sync", "tags":
 				add("", "", map[string][]byte{"reload": nil, "sync": []byte(`{"sync":"lm"}`), "tags": []byte(`{"swept":"yes"}`)}[kw])
 			}
@@ -823,8 +870,13 @@ func (w *c2World) payloads(in *c2Inst, kw, method string, k int, other string) [
 				add("/0_1_2/32_32_32/64_0_0", "", c2Labels(0)[:32*32*32*8])
 			case "blocks", "ingest-supervoxels":
 				if other != "" {
-					r := w.http("GET", "/api/node/"+other+"/"+in.Name+"/blocks/"+c2Vol+"/"+c2Off, nil)
+					r := w.http("GET", "/api/node/"+other+"/"+in.Name+"/blocks/"+c2Vol+"/"+c2Off+"?compression=blocks", nil)
 					if r.Status == 200 {
+						// the two blocks of the volume with their coordinates exchanged: the documented stream
+						// format, and content that differs from what any node holds
+						if sw := c2SwapBlocks(r.Bytes()); sw != nil {
+							add("", "", sw)
+						}
 						add("", "", r.Bytes())
 					}
 				}
@@ -872,11 +924,26 @@ func (w *c2World) payloads(in *c2Inst, kw, method string, k int, other string) [
 			}
 		case "labelarray":
 			switch kw {
+			case "blocks":
+				if other != "" {
+					r := w.http("GET", "/api/node/"+other+"/"+in.Name+"/blocks/"+c2Vol+"/"+c2Off+"?compression=blocks", nil)
+					if r.Status == 200 {
+						if sw := c2SwapBlocks(r.Bytes()); sw != nil {
+							add("", "", sw)
+						}
+					}
+				}
 			case "raw":
 				add("/0_1_2/"+c2Vol+"/"+c2Off, "", c2Labels(7))
 			case "merge":
 				add("", "", []byte(`[1,2]`))
-			case "split", "split-coarse":
+			case "split":
+				// (a caller-given split label: a committed version cannot allocate one)
+				add("/2", "splitlabel=77", c2BoxRLEs(32, 8, 0, 4, 16, 20))
+				add("/2", "", c2BoxRLEs(32, 8, 0, 4, 16, 20))
+			case "split-coarse":
+				// block coordinates: the second block of the volume
+				add("/2", "splitlabel=78", c2BoxRLEs(1, 1, 0, 1, 0, 1))
 				add("/2", "", c2BoxRLEs(32, 8, 0, 4, 16, 20))
 			case "nextlabel", "maxlabel":
 				add("/5000", "", nil)
@@ -896,7 +963,11 @@ func (w *c2World) payloads(in *c2Inst, kw, method string, k int, other string) [
 			switch kw {
 			case "merge":
 				add("", "", []byte(`[1,2]`))
-			case "split", "split-coarse":
+			case "split":
+				add("/2", "splitlabel=77", c2BoxRLEs(32, 8, 0, 4, 16, 20))
+				add("/2", "", c2BoxRLEs(32, 8, 0, 4, 16, 20))
+			case "split-coarse":
+				add("/2", "splitlabel=78", c2BoxRLEs(1, 1, 0, 1, 0, 1))
 				add("/2", "", c2BoxRLEs(32, 8, 0, 4, 16, 20))
 			case "nextlabel", "maxlabel":
 				add("/5000", "", nil)
